@@ -25,7 +25,9 @@ RULE = ("cases (TLE, observer, start, length, horizon): TLEs = the near-earth el
         "Oracle (statement only): elevation sampled every second over the window, crossings refined by bisection to 1e-9 s, "
         "maxima refined on 1 ms and 1 us grids. distinct = (tle, observer, start, length, horizon); non-trivial = at least "
         "one pass reported or one above-horizon interval in the truth")
-ASSUMPTIONS = ["the elevation is what Orbital.get_observer_look returns (its correctness is C05's subject)",
+ASSUMPTIONS = ["cases whose propagated altitude leaves 80-30 000 km at a whole minute of the window are skipped (element sets "
+               "propagated beyond their decay give million-km positions that pyorbital does not refuse; refusals are C13)",
+               "the elevation is what Orbital.get_observer_look returns (its correctness is C05's subject)",
                "brentq / the maximiser meeting their contracts to 1e-4 deg / 0.01 deg in binary64 is measured by the oracle on "
                "the sampled cases, not proved",
                "one hump per pass (hypothesis of bracket_contains_peak / culmination_near_max) is measured, not proved",
@@ -90,6 +92,23 @@ def el_at_datetime(o, t, obs, horizon):
 def secs_of(t0, t):
     d = t - t0
     return d.days * 86400.0 + d.seconds + d.microseconds * 1e-6
+
+
+ALT_RANGE_KM = (80.0, 30000.0)
+
+
+def in_domain(case):
+    """The element set is still a near-earth orbit throughout the window: propagated altitude within 80-30 000 km at every
+    whole minute (element sets propagated beyond their decay return million-km positions without being refused)."""
+    o = _orb(case)
+    t0 = _start(case)
+    n = int(case["length"]) * 60 + 1
+    times = np.datetime64(t0, "us") + (np.arange(n) * 60 * 10 ** 6).astype("timedelta64[us]")
+    try:
+        alt = np.asarray(o.get_lonlatalt(times)[2], dtype=float)
+    except Exception:  # noqa
+        return False
+    return bool(np.all(np.isfinite(alt)) and alt.min() >= ALT_RANGE_KM[0] and alt.max() <= ALT_RANGE_KM[1])
 
 
 # ------------------------------------------------------------------------------------------------ recording
@@ -253,6 +272,9 @@ def gen_cases(ctx, n, max_len):
             horizon = r.choice([0, 5, 10])
         case = {"line1": a, "line2": b, "start": t0.isoformat(), "length": length, "lon": lon, "lat": lat, "alt": alt,
                 "horizon": horizon, "kind": kind}
+        if not in_domain(case):
+            ctx.count("skipped_outside_altitude_range")
+            continue
         out.append(case)
         # derived cases: grazing horizon, windows cut inside a pass
         if r.random() < 0.45:
@@ -295,7 +317,7 @@ def _derived(ctx, o, case):
         c["kind"] = "cut_end"
         if orbits.answers(o, _start(c)):
             out.append(c)
-    return out
+    return [c for c in out if in_domain(c)]
 
 
 def gen_zero_cases(ctx, n):
@@ -573,6 +595,7 @@ def judge(case, ps=None):
         if err:
             return None, {"refused": err}
     viol = []
+    meta = []
     el, truth = truth_intervals(o, t0, total_s, obs, horizon)
     stats = {"passes": len(ps), "truth_intervals": len(truth), "max_el": None, "worst_root": 0.0, "worst_culm": 0.0}
     prev_fall = None
@@ -610,6 +633,7 @@ def judge(case, ps=None):
                 stats["max_el"] = max(stats["max_el"] or -1e9, tm + horizon)
                 stats["worst_culm"] = max(stats["worst_culm"], tm - ec)
                 if not (tm - ec <= TOL_CULM_DEG):
+                    meta.append({"true_max_deg": tm + horizon, "pass_duration_s": fs - rs})
                     viol.append(("culmination_off", "%s: elevation at the reported culmination %.4f deg, true maximum of the pass "
                                  "%.4f deg (peak elevation %.3f deg)" % (tag, ec + horizon, tm + horizon, tm + horizon),
                                  "within 0.01 deg of the pass's true maximum"))
@@ -627,6 +651,7 @@ def judge(case, ps=None):
                          "every above-horizon interval longer than 60 s that begins after the start and ends at least one "
                          "minute before the end of the window is reported"))
     stats["required_intervals"] = need
+    stats["culmination_off"] = meta
     stats["short_intervals"] = sum(1 for (a, b, _, _) in truth if a is not None and b is not None and b - a <= MIN_INTERVAL_S)
     return viol, stats
 
@@ -656,8 +681,8 @@ def _run_oracle(ctx, cases, label):
             site = {"culmination_off": "_get_max_parab", "rise_not_on_horizon": "_get_root", "fall_not_on_horizon": "_get_root"}.get(
                 kind, "Orbital.get_next_passes")
             c = dict(case)
-            if kind == "culmination_off" and st["max_el"] is not None:
-                c["true_max_deg"] = st["max_el"]
+            if kind == "culmination_off" and st["culmination_off"]:
+                c.update(st["culmination_off"][0])
             ctx.violation(kind, c, observed, required, site=site)
     return worst_root, worst_culm
 
@@ -698,8 +723,11 @@ def match_known(entry, v):
     m = entry.get("match") or {}
     if m.get("kind") == "exact_zero_sample":
         return v["case"].get("kind") == "exact_zero" and v["kind"] in ("ordering", "not_disjoint")
-    if m.get("site") and m.get("min_true_max_deg") is not None:
-        return v.get("site") == m["site"] and v["case"].get("true_max_deg", 0) >= m["min_true_max_deg"]
+    if m.get("kind") == "culmination_off":
+        # culmination of a short, sharply peaked pass: the maximiser's bracket is [rise, fall]
+        return (v["kind"] == "culmination_off" and v.get("site") == "_get_max_parab"
+                and v["case"].get("true_max_deg", 0) >= m.get("min_true_max_deg", 0)
+                and v["case"].get("pass_duration_s", 1e9) <= m.get("max_pass_duration_s", 1e9))
     return False
 
 
